@@ -26,6 +26,7 @@ char *__wrap_getenv(const char *name)
         if (!strcmp(name, "HOME")) return (char *) g_home;
         if (!strcmp(name, "V")) return (char *) "val";
         if (!strcmp(name, "VV")) return (char *) "x y";
+        if (!strcmp(name, "L")) return (char *) "a_rather_long_value_of_forty_characters_";
         if (!strcmp(name, "E")) return (char *) "";
         if (!strcmp(name, "U") || !strcmp(name, "")) return NULL;
         if (!strcmp(name, "BIG")) { static char *big; if (!big) { big = malloc(30001); memset(big, 'B', 30000); big[30000] = 0; } return big; }
